@@ -256,29 +256,6 @@ def rule_row_scaling(F, ev_unused, R, config, rule="R-ROW-SCALING"):
     R.floor(rule, config, 3, "Weights::mul, DiagMatrix::mul return + column scaling")
 
 
-def local_callers(F):
-    """{callee key: set of caller body keys} over resolved local calls (closures count for their root)"""
-    cs = getattr(F, "_local_callers", None)
-    if cs is None:
-        cs = {}
-        for b in F.bodies.values():
-            for bi, t in b.calls():
-                if "fn" in t:
-                    k = t["fn"].get("resolved_key") or t["fn"].get("key")
-                    if k in F.bodies:
-                        cs.setdefault(k, set()).add(b.j.get("root", b.key))
-            for bi, si, st in b.stmts():
-                # functions passed by reference (`.map(helper)`)
-                if st["k"] == "assign":
-                    for o in rv_operands(st["rv"]):
-                        if o.get("k") == "const" and "fn" in o:
-                            k = o["fn"].get("resolved_key") or o["fn"].get("key")
-                            if k in F.bodies:
-                                cs.setdefault(k, set()).add(b.j.get("root", b.key))
-        F._local_callers = cs
-    return cs
-
-
 def rv_operands(rv):
     for k in ("op", "a", "b"):
         if isinstance(rv.get(k), dict):
@@ -478,6 +455,15 @@ def rule_weight_uses(F, ev, R, config, rule="R-WEIGHT-USES"):
 def rule_who_writes(F, ev, R, config, rule="R-WHO-WRITES"):
     pr = problem_roles(F)
     lsp_set = {ms["set_params"].key for ms in lsp_impls(F).values() if "set_params" in ms}
+    # a private helper that is reached ONLY from LeastSquaresProblem::set_params (of either flavour) is part of it
+    allk = set(F.bodies)
+    helper_of_set_params = set()
+    for k, hb in F.bodies.items():
+        if hb.kind != "Closure" and k not in lsp_set and not stable_name(hb):
+            anc = stable_ancestors(F, k, allk)
+            if anc and anc <= lsp_set:
+                helper_of_set_params.add(k)
+    lsp_set = lsp_set | helper_of_set_params
     # 1. all fields private
     for f in struct_fields(F, ADT_PROBLEM):
         ok = f["vis"] != "pub"
@@ -585,11 +571,19 @@ def rule_def_init(F, ev, R, config, rule="R-DEF-INIT"):
             allowed_roots.add(ms["jacobian"].key)
     for b in trait_impl_methods(F, TRAIT_MODEL, ADT_SEPMODEL, "eval"):
         allowed_roots.add(b.key)
+    # a private helper reached only from the allowed functions is part of them (its code is analysed in their merged bodies)
+    allk = set(F.bodies)
+    helpers = set()
+    for k, hb in F.bodies.items():
+        if hb.kind != "Closure" and k not in allowed_roots and not stable_name(hb):
+            anc = stable_ancestors(F, k, allk)
+            if anc and anc <= allowed_roots:
+                helpers.add(k)
     # (1) unsafe inventory
     for u in F.unsafe_blocks:
         if not u["block"]["user"]:
             continue
-        ok = u["in"] in allowed_roots
+        ok = u["in"] in allowed_roots or u["in"] in helpers
         R.add(rule, config, u["in"], "unsafe-block", ok,
               "" if ok else "new `unsafe` block outside the two reviewed uninitialised-allocation sites (needs review)", u["block"]["span"])
     for b in F.bodies.values():
@@ -597,7 +591,8 @@ def rule_def_init(F, ev, R, config, rule="R-DEF-INIT"):
             R.bad(rule, config, b.key, "unsafe-fn", "unsafe fn in the crate (needs review)", b.j["span"])
     # (2) every assume_init / set_len / MaybeUninit use is one of the tabled sites, and proven
     n_sites = 0
-    for b in sorted(F.bodies.values(), key=lambda x: x.key):
+    bodies_to_scan = [merged(F, F.bodies[k]) if k in allowed_roots else F.bodies[k] for k in sorted(F.bodies) if k not in helpers]
+    for b in bodies_to_scan:
         for bi, t in b.calls():
             if "fn" not in t:
                 continue
@@ -619,7 +614,7 @@ def rule_def_init(F, ev, R, config, rule="R-DEF-INIT"):
                 R.add(rule, config, b.key, "uninit-fully-overwritten", ok, msg if not ok else "every column written before the matrix can be returned: " + msg, t.get("span"))
     # result matrices allocated initialised (zeros / from_element) satisfy the clause trivially
     for rk in sorted(allowed_roots):
-        b = F.bodies[rk]
+        b = merged(F, F.bodies[rk])
         env = Env(b)
         for bi, t in b.calls():
             if "fn" in t and t["fn"]["name"] in ("column_iter_mut", "par_column_iter_mut"):
